@@ -211,7 +211,8 @@ Record world := mkWorld {
   w_nextwid : N;
   (* ghost components, used only by the statements *)
   w_lockhist : list (cp * list sleaf);   (* every checkpoint whose Create/Replace took effect, oldest first *)
-  w_pubhist : list cp;                   (* every checkpoint object that became readable under "checkpoint" *)
+  w_pubhist : list (cp * nat);           (* every checkpoint object that became readable under "checkpoint",
+                                            with the number of checkpoints committed so far at that moment *)
   w_acks : list ack;
   w_discards : list (bytes * option cp)  (* discarded key, published checkpoint at that moment *)
 }.
@@ -286,7 +287,7 @@ Definition world_upload (w : world) (i : nat) (u_k : bytes) (o : obj) (opt : uop
   let ph := match o with
             | OC c => if bytes_eqb u_k k_checkpoint && applied f && (changed || true)
                            && match lookup s' u_k with Some (OC c') => cp_eqb c c' | _ => false end
-                      then w_pubhist w ++ [c] else w_pubhist w
+                      then w_pubhist w ++ [(c, length (w_lockhist w))] else w_pubhist w
             | _ => w_pubhist w end in
   (mkWorld s' (w_lock w) (w_now w) (w_insts w) (w_nextwid w) (w_lockhist w) ph (w_acks w) (w_discards w),
    ok, ObsOp i KUpload u_k (Some opt) (Some o) f ok).
@@ -509,7 +510,7 @@ Inductive admit_res :=
 | AAppended (wid : N) | AEvicting (wid : N) (victim_wid : N).
 
 (* the mutex-protected part of addLeafToPool; [victim] resolves Go's map iteration order *)
-Definition admit (c : cfg) (closed : option errc) (p inseq : pool) (cache : list (bytes * (N * Z)))
+Definition admission (c : cfg) (closed : option errc) (p inseq : pool) (cache : list (bytes * (N * Z)))
                  (e : entry) (low : bool) (victim : nat) (wid : N) : pool * admit_res :=
   match closed with
   | Some er => (p, AClosed er)
@@ -581,7 +582,7 @@ Definition step_submit (w : world) (i : nat) (x : inst) (e : entry) (low : bool)
     let a := mkAck wid i e None (Some EIssuer) (published w1) in
     (bump (add_acks (set_i w1 i x1) [a]), o ++ [ObsSubmit i wid "issuer"; ObsAck wid None (Some EIssuer)])
   else
-    let '(p', r) := admit (i_cfg x) (i_closed x) (i_pool x) (i_inseq x) (i_cache x) e low victim wid in
+    let '(p', r) := admission (i_cfg x) (i_closed x) (i_pool x) (i_inseq x) (i_cache x) e low victim wid in
     let x2 := mkInst (i_cfg x) (i_pc x) (i_tree x) (i_lockcp x) (i_leaves x) p' (i_inseq x) (i_closed x)
                      known (i_cache x) (i_rctx x) (i_pub x) in
     let w2 := set_i w1 i x2 in
